@@ -64,7 +64,7 @@ Section Law.
         match vld v with None => (Raise TraitError, []) | Some y => (Ok (insert l i y, None), []) end
     | Pop oi =>
         (bind (pop l (match oi with Some i => i | None => -1 end)) (fun p => Ok (snd p, Some (fst p))), [])
-    | Remove v => (lift (remove Z.eqb l v), [])          (* the value to remove is not validated (documented) *)
+    | Remove v => (lift (remove py_eq l v), [])          (* the value to remove is not validated (documented) *)
     | Reverse => (Ok (rev l, None), [])
     | Sort m r => (Ok (sort (key_leb m) r l, None), [])
     | Clear => (Ok ([], None), [])
